@@ -1,18 +1,36 @@
-"""Deterministic, single-threaded execution of the real st4sd Controller / ComponentState code.
+"""Deterministic execution of the real st4sd Controller / ComponentState (/ Engine) code.
 
-Used by harness/c01.py and harness/c02.py (DESIGN.md section 3.3).  Nothing in /repo is modified: the
-stand-ins below are installed by monkey-patching from this process.
+Used by harness/c01.py and harness/c02.py (DESIGN.md section 3.3); `install()`, `FakeStatus` and the `env` dictionary
+are also used by harness/c05.py, c13.py, c20.py.  Nothing in /repo is modified: the stand-ins below are installed by
+monkey-patching from this process.
 
   * reactivex.interval              -> a fresh Subject per call (recorded with the name of the creating
                                        function; those made in ComponentState.__init__ can be ticked)
-  * NewThreadScheduler / ThreadPoolGenerator.get_pool -> one CurrentThreadScheduler (trampoline)
+  * NewThreadScheduler / ThreadPoolGenerator.get_pool -> one CurrentThreadScheduler (trampoline), except
+      - the Controller pool and the EngineTask pool: `HoldPool` objects.  While no `Sim` owns them they forward
+        to the trampoline (callers that only `install()` see the former synchronous behaviour).  While a `Sim`
+        owns them, an item scheduled on the pool is HELD until the harness runs it: the real RxPY pipelines of
+        the Controller (`observe_on(controllerPool)` + `filter(finishCalled is False)`, in whatever order the code
+        composes them) decide what a queued notification does when it is finally delivered; per `observe_on`
+        the deliveries are FIFO (as with the real thread pool: a ScheduledObserver drains its queue serially),
+        between different pipelines the harness chooses.
   * control.time.sleep, control.WaitOnStability, MonitorExceptionTracker.isSystemStable -> no-op / True
-  * Engine.engineForComponentSpecification -> FakeEngine / FakeRepeatingEngine whose task exits are
-                                       events chosen by the harness
-  * Controller.finishedCheck / postMortemCheck (instance attributes) -> queueing wrappers; the harness
-                                       delivers the queued notifications later, in an order of its choosing
+  * Engine.engineForComponentSpecification -> FakeEngine / FakeRepeatingEngine whose task exits are events chosen
+        by the harness; or (Sim(real_engines=True), non-repeating components) the REAL `Engine`: real `run`
+        (InitPerformanceInfo, LaunchTask, SetLaunchTime | Wait, FinalisePerformanceInfo, HandleTaskExit ->
+        `_setExitReason`), `restart`, `kill`, `shutdown`, `exitReason`, with a harness task generator that returns a
+        scripted fake Task or raises OSError / JobLaunchError / RuntimeError (script entries "Reason:os",
+        "Reason:launch", "Reason:raise"); the launch happens inside `run()`, the part after
+        `observe_on(taskPoolScheduler)` (waiting for the task and handling its exit) is held in the EngineTask
+        pool until the harness chooses the `exit` of that component.
+  * Controller.comp_lock            -> `HLock`, a re-entrant lock whose outermost acquire / release are yield
+        points for a delivery that the harness runs in a worker thread (strict hand-off: exactly one thread runs
+        at any time, so the run is deterministic): `finishedCheck` is then executed in three steps
+        ["finA", c] (up to the acquisition of comp_lock), ["finB", c] (the critical region), ["finC", c] (the
+        rest), between which the harness may let the run() loop perform scheduler passes and other events happen.
   * Controller._event_scheduler     -> object whose wait() hands control to the harness; the real
                                        Controller.run() loop executes unmodified
+  * ComponentState.finish           -> recording wrapper (ground truth for "the first final state of a component")
   * the stage loop of scripts/elaunch.py:Run (not importable: a script with global option parsing) is
     re-stated in Sim.run(): run() the current stage; stop on an exception unless the stage has
     `continue-on-error`; experiment.incrementStage(); Controller.initialise(next stage); run() ...
@@ -22,12 +40,18 @@ from __future__ import annotations
 import logging
 import os
 import sys
+import threading
 
 _INSTALLED = {}
 
 
 class StopSim(BaseException):
     """Raised from wait() to abandon Controller.run() (BaseException: not caught by `except Exception`)."""
+
+
+class HarnessError(BaseException):
+    """the deterministic runtime met something it cannot drive (internal structure of RxPY changed, deadlock ...);
+    a BaseException so that no `except Exception` of the code under test swallows it"""
 
 
 def install():
@@ -43,24 +67,84 @@ def install():
     import reactivex.scheduler
     from reactivex.subject import Subject
     from reactivex.scheduler import CurrentThreadScheduler
+    from reactivex.scheduler.scheduler import Scheduler
+    from reactivex.disposable import Disposable
 
     CT = CurrentThreadScheduler()
     intervals = []   # (creating function name, Subject)
+    interval_owner = {}   # id(Subject) -> qualified name of the creating function
 
     def fake_interval(*a, **k):
         s = Subject()
-        intervals.append((sys._getframe(1).f_code.co_name, s))
+        code = sys._getframe(1).f_code
+        intervals.append((code.co_name, s))
+        interval_owner[id(s)] = getattr(code, "co_qualname", code.co_name)
         return s
+
+    class PoolItem:
+        __slots__ = ("pool", "action", "state", "cancelled", "tag")
+
+        def __init__(self, pool, action, state, tag):
+            self.pool, self.action, self.state, self.cancelled, self.tag = pool, action, state, False, tag
+
+        def cancel(self):
+            self.cancelled = True
+            try:
+                self.pool.items.remove(self)
+            except ValueError:
+                pass
+
+        def run(self):
+            try:
+                self.pool.items.remove(self)
+            except ValueError:
+                pass
+            if not self.cancelled:
+                self.action(self.pool, self.state)
+
+    class HoldPool(Scheduler):
+        """stand-in for one ThreadPoolScheduler (see the module docstring)"""
+
+        def __init__(self, name):
+            super().__init__()
+            self.name = name
+            self.owner = None
+            self.items = []
+
+        def schedule(self, action, state=None):
+            if self.owner is None:
+                return CT.schedule(action, state)
+            item = PoolItem(self, action, state, self.owner._tag_for(self, action))
+            self.items.append(item)
+            return Disposable(item.cancel)
+
+        def schedule_relative(self, duetime, action, state=None):
+            return self.schedule(action, state)
+
+        def schedule_absolute(self, duetime, action, state=None):
+            return self.schedule(action, state)
+
+    CTRL_POOL = HoldPool("Controller")
+    TASK_POOL = HoldPool("EngineTask")
+
+    def get_pool(cls, pool):
+        name = getattr(pool, "value", pool)
+        if name == "Controller":
+            return CTRL_POOL
+        if name == "EngineTask":
+            return TASK_POOL
+        return CT
 
     reactivex.interval = fake_interval
     reactivex.scheduler.NewThreadScheduler = lambda *a, **k: CT
     import experiment.runtime.utilities.rx as urx
-    urx.ThreadPoolGenerator.get_pool = classmethod(lambda cls, pool: CT)
+    urx.ThreadPoolGenerator.get_pool = classmethod(get_pool)
 
     import experiment.runtime.engine as E
     import experiment.runtime.workflow as W
     import experiment.runtime.control as C
     import experiment.runtime.monitor as M
+    import experiment.runtime.errors as RE
     import experiment.model.codes as codes
 
     class _NoSleep:
@@ -81,6 +165,46 @@ def install():
 
     RC = codes.restartCodes
     XR = codes.exitReasons
+    STATE = {"REAL": None}     # the Sim that wants real engines (while it builds / runs), else None
+
+    class _OpProxy:
+        """reactivex.operators as engine.py sees it: while a Sim runs real engines the launch delay of
+        Engine.run is not waited for"""
+
+        def __init__(self, real):
+            self._real = real
+
+        def delay(self, *a, **k):
+            if STATE["REAL"] is not None:
+                return lambda source: source
+            return self._real.delay(*a, **k)
+
+        def __getattr__(self, k):
+            return getattr(self._real, k)
+
+    E.op = _OpProxy(E.op)
+
+    # Engine._create_state_updates serialises the state updates of every engine on a private ThreadPoolScheduler(1)
+    # (a real thread): while a Sim runs real engines that scheduler is the trampoline as well
+    _RealTPS = reactivex.scheduler.ThreadPoolScheduler
+
+    def _tps(*a, **k):
+        if STATE["REAL"] is not None:
+            return CT
+        return _RealTPS(*a, **k)
+
+    reactivex.scheduler.ThreadPoolScheduler = _tps
+
+    # ground truth for final states: every call of ComponentState.finish(state), in order
+    FINISH_HOOKS = []
+    _real_finish = W.ComponentState.finish
+
+    def finish_recorder(self, finalState):
+        for cb in list(FINISH_HOOKS):
+            cb(self, finalState)
+        return _real_finish(self, finalState)
+
+    W.ComponentState.finish = finish_recorder
 
     class FakeEngineBase:
         """Duck-typed engine.  The restart() below is the part of Engine.restart that C01/C02 need (counter
@@ -196,16 +320,96 @@ def install():
         def __init__(self, job):
             self._fe_init(job)
 
+    class StubTask:
+        """what the harness task generator returns when the backend accepts the task: a Task that has finished
+        when wait() is called and reports the scripted exit reason"""
+
+        def __init__(self, reason, engine):
+            self.exitReason = reason
+            self.returncode = 0 if reason == XR["Success"] else 1
+            self.status = "finished"
+            self.schedulerId = "stub"
+            self.engine = engine
+            self.killed = False
+
+            class _Perf:
+                def getElements(self):
+                    return {}
+
+            self.performanceInfo = _Perf()
+
+        def isAlive(self):
+            return False
+
+        def wait(self):
+            import datetime
+            t0 = datetime.datetime.now()
+            while datetime.datetime.now() == t0:      # task-run-time is a divisor in FinalisePerformanceInfo
+                pass
+            return self.returncode
+
+        def kill(self):
+            self.killed = True
+
+        def terminate(self):
+            self.killed = True
+
+        def __getattr__(self, k):  # anything else the state dictionary reads about a finished task
+            if k.startswith("__"):
+                raise AttributeError(k)
+            return None
+
+    def make_real_engine(sim, job):
+        eng = E.Engine(job, None)
+        eng.runs = 0
+        eng.started = False
+        eng.killRequested = False
+
+        def generator(job_, *a, **k):
+            kind = sim._next_launch(eng)
+            base, _, how = kind.partition(":")
+            if how == "os":
+                raise OSError("working directory vanished")
+            if how == "launch":
+                raise RE.JobLaunchError("backend refused the task", None)
+            if how == "raise":
+                raise RuntimeError("task generator is broken")
+            return StubTask(XR[base], eng)
+
+        eng.taskGenerator = generator
+
+        def run_wrapper(*a, **k):
+            eng.runs += 1
+            eng.started = True
+            for cb in list(RUN_HOOKS):
+                cb(eng)
+            prev = sim._launching
+            sim._launching = eng
+            try:
+                E.Engine.run(eng, startObservable=reactivex.of(0))      # the real method
+            finally:
+                sim._launching = prev
+
+        eng.run = run_wrapper
+        ENGINES.append(eng)
+        return eng
+
     ENGINES = []
     RUN_HOOKS = []
 
     def make_engine(cls, job):
-        return FakeRepeatingEngine(job) if job.isRepeat else FakeEngine(job)
+        if job.isRepeat:
+            return FakeRepeatingEngine(job)
+        if STATE["REAL"] is not None:
+            return make_real_engine(STATE["REAL"], job)
+        return FakeEngine(job)
 
     E.Engine.engineForComponentSpecification = classmethod(make_engine)
 
-    _INSTALLED.update(dict(CT=CT, intervals=intervals, E=E, W=W, C=C, codes=codes, ENGINES=ENGINES,
-                           RUN_HOOKS=RUN_HOOKS, FakeEngine=FakeEngine, FakeRepeatingEngine=FakeRepeatingEngine))
+    _INSTALLED.update(dict(CT=CT, intervals=intervals, interval_owner=interval_owner, E=E, W=W, C=C, codes=codes,
+                           ENGINES=ENGINES, RUN_HOOKS=RUN_HOOKS, FINISH_HOOKS=FINISH_HOOKS, FakeEngine=FakeEngine,
+                           FakeRepeatingEngine=FakeRepeatingEngine, CTRL_POOL=CTRL_POOL, TASK_POOL=TASK_POOL,
+                           STATE=STATE, StubTask=StubTask))
     return _INSTALLED
 
 
@@ -235,101 +439,307 @@ class _EventScheduler:
         return False
 
 
+class _Worker:
+    """one delivery executed in its own thread with strict hand-off to the harness thread"""
+    _local = threading.local()
+
+    def __init__(self, sim, fn, label, max_stops):
+        self.sim, self.fn, self.label, self.max_stops = sim, fn, label, max_stops
+        self.stops = 0
+        self.done = False
+        self.exc = None
+        self.at = None
+        self.queue = None
+        self._to_main = threading.Event()
+        self._to_self = threading.Event()
+        self.thread = threading.Thread(target=self._run, daemon=True)
+
+    @classmethod
+    def current(cls):
+        return getattr(cls._local, "cur", None)
+
+    def _run(self):
+        _Worker._local.cur = self
+        try:
+            self.fn()
+        except BaseException as exc:  # noqa
+            self.exc = exc
+        finally:
+            self.done = True
+            self._to_main.set()
+
+    def _wait_for_worker(self):
+        if not self._to_main.wait(120):
+            raise HarnessError("worker %r did not yield within 120 s (deadlock?)" % (self.label,))
+        self._to_main.clear()
+
+    def start(self):
+        self.thread.start()
+        self._wait_for_worker()
+
+    def resume(self):
+        self._to_self.set()
+        self._wait_for_worker()
+
+    def pause(self, why):
+        """called in the worker thread at a yield point"""
+        if self.stops >= self.max_stops or self.sim._draining:
+            return
+        self.stops += 1
+        self.at = why
+        self._to_main.set()
+        self._to_self.wait()
+        self._to_self.clear()
+
+
+class HLock:
+    """replacement of Controller.comp_lock (threading.RLock): re-entrant; the outermost acquire and the outermost
+    release of a worker thread are yield points.  Because a worker only ever waits at those two points, a waiting
+    worker never holds the lock, so no thread ever has to block on it."""
+
+    def __init__(self, sim):
+        self.sim = sim
+        self.owner = None
+        self.count = 0
+
+    def acquire(self, blocking=True, timeout=-1):
+        me = threading.get_ident()
+        if self.owner == me:
+            self.count += 1
+            return True
+        w = _Worker.current()
+        if w is not None:
+            w.pause("acquire")
+        if self.owner is not None:
+            raise HarnessError("comp_lock is held by a suspended thread")
+        self.owner = me
+        self.count = 1
+        return True
+
+    def release(self):
+        if self.owner != threading.get_ident():
+            raise RuntimeError("cannot release un-acquired lock")
+        self.count -= 1
+        if self.count == 0:
+            self.owner = None
+            w = _Worker.current()
+            if w is not None:
+                w.pause("release")
+
+    def __enter__(self):
+        self.acquire()
+        return self
+
+    def __exit__(self, *a):
+        self.release()
+        return False
+
+
 STATE_NAMES = {"finished": "finished", "failed": "failed", "component_shutdown": "shutdown",
                "running": "running", "checking": "postmortem"}
+FINAL_NAMES = ("finished", "failed", "shutdown")
+
+
+def _closure_vars(fn):
+    code = getattr(fn, "__code__", None)
+    cells = getattr(fn, "__closure__", None)
+    if code is None or not cells:
+        return {}
+    out = {}
+    for name, cell in zip(code.co_freevars, cells):
+        try:
+            out[name] = cell.cell_contents
+        except ValueError:
+            pass
+    return out
 
 
 class Sim:
     """One experiment + one real Controller under the deterministic runtime.
 
-    Ops (JSON lists):  ["sched"] | ["exit", c] | ["fin", c] | ["pm", c] | ["kill"] | ["tick", c] | ["next"]
-    where c is the index of the component in `self.refs` (= order of controller.graph.nodes).
-    `["sched"]` = return from wait() so that the real loop performs its next iteration
-    (active check, `_schedule`).  The exit reason of the k-th execution of c is scripts[c][k] (Success
-    beyond the end of the script).  `["next"]` is recorded (never chosen) when the stage loop has called
-    Controller.initialise() for the next stage; right after it the chooser may let events happen before the
-    run() of the new stage starts (the inter-stage window: real notifications do not wait for run())."""
+    Ops (JSON lists):  ["sched"] | ["exit", c] | ["fin", c] | ["pm", c] | ["finA", c] | ["finB", c] | ["finC", c] |
+                       ["kill"] | ["tick", c] | ["next"]
+    where c is the index of the component in `self.refs` (= canonical topological numbering of the components that
+    exist when the Controller is built, then - DoWhile iterations - in order of instantiation).
+    `["sched"]` = return from wait() so that the real loop performs its next iteration (active check, `_schedule`).
+    `["fin", c]` / `["pm", c]` run the held Controller-pool item that delivers the queued finished / post-mortem
+    notification of c (enabled when that notification is at the head of its `observe_on` queue); `["finA", c]`,
+    `["finB", c]`, `["finC", c]` run the same delivery of a finished-notification in three steps (see HLock).
+    The exit reason of the k-th execution of c is scripts[c][k] (Success beyond the end of the script; a suffix
+    ":os" / ":launch" / ":raise" makes the task generator of a real engine raise instead of returning a task).
+    `["next"]` is recorded (never chosen) when the stage loop has called Controller.initialise() for the next stage;
+    right after it the chooser may let events happen before the run() of the new stage starts (the inter-stage
+    window: real notifications do not wait for run())."""
 
-    def __init__(self, flowir_yaml, workdir, scripts_by_ref=None):
+    def __init__(self, flowir_yaml, workdir, scripts_by_ref=None, extra_files=None, real_engines=False):
         env = install()
         self.env = env
         import tests.utils as TU
+        from reactivex.observer.scheduledobserver import ScheduledObserver
+        self._SO = ScheduledObserver
         cwd = os.getcwd()
-        n_int = len(env["intervals"])
-        n_eng = len(env["ENGINES"])
-        self._n_int = n_int
-        try:
-            self.exp = TU.experiment_from_flowir(flowir_yaml, workdir, checkExecutables=False)
-            self.controller, self._components = TU.new_controller(self.exp)
-        finally:
-            os.chdir(cwd)
-        ctl = self.controller
-        nodes = list(ctl.graph.nodes)
-        depth = {}
-
-        def _depth(r):
-            if r not in depth:
-                depth[r] = 0   # guards against cycles (validated workflows have none)
-                ps = list(ctl.graph.predecessors(r))
-                depth[r] = 1 + max([_depth(p) for p in ps]) if ps else 0
-            return depth[r]
-        # canonical topological numbering: (longest path from a source, name)
-        self.refs = sorted(nodes, key=lambda r: (_depth(r), r))
-        self.index = {r: i for i, r in enumerate(self.refs)}
-        self.order = [self.index[r] for r in nodes]          # iteration order of graph.nodes
-        self.preds = {r: sorted(self.index[p] for p in ctl.graph.predecessors(r)) for r in self.refs}
-        self.comp = {r: ctl.get_compstate(r) for r in self.refs}
+        self._n_int = len(env["intervals"])
+        self._n_eng = len(env["ENGINES"])
+        self.real_engines = bool(real_engines)
+        self._launching = None
+        self._obs_tag = {}
+        self._draining = False
+        self.workers = {}          # ref -> _Worker (a finished-notification in flight)
+        self.pool_errors = []
+        self.finish_log = []       # [ref, state name] for every ComponentState.finish() call, in order
+        self.first_final = {}      # ref -> first final state (name) the component was seen in / asked to take
+        self.final_at = {}         # ref -> len(trace) when the component was first seen final
+        self.launch_at = {}        # ref -> len(trace) at its first engine.run()
+        self.clock = 0             # event counter: orders "became final" against "was launched" inside one op
+        self.final_clock = {}      # ref -> clock when the component was first seen final
+        self.launch_clock = {}     # ref -> clock at its first engine.run()
+        self._seen = {}            # id(queued closure) -> (closure, label, dead)
+        self.ctrl_pool = env["CTRL_POOL"]
+        self.task_pool = env["TASK_POOL"]
+        if self.ctrl_pool.owner is not None or self.task_pool.owner is not None:
+            raise HarnessError("another Sim is still active")
+        self.ctrl_pool.owner = self
+        self.task_pool.owner = self
+        del self.ctrl_pool.items[:]
+        del self.task_pool.items[:]
+        self.exit_hook = None      # fn(ref, reason) called just before the task of ref exits
+        self.refs = []
+        self.index = {}
+        self.comp = {}
         self.ticks = {}
-        mine = [s for (fn, s) in env["intervals"][n_int:] if fn == "__init__"]
-        # ComponentState.__init__ creates exactly one interval per component, in construction order
-        self._interval_subjects = mine
-        self.engines = env["ENGINES"][n_eng:]
-        for e in self.engines:
-            self.ticks[e.job.reference] = None
-        # map tick subjects to components: construction order of ComponentState == order of engine creation
-        for e, s in zip(self.engines, mine):
+        self.engines = []
+        self.execs = {}
+        self.scripts = {}
+        try:
+            if self.real_engines:
+                env["STATE"]["REAL"] = self
+            kw = {"extra_files": extra_files} if extra_files else {}
+            try:
+                self.exp = TU.experiment_from_flowir(flowir_yaml, workdir, checkExecutables=False, **kw)
+                self.controller, self._components = TU.new_controller(self.exp)
+            finally:
+                os.chdir(cwd)
+            ctl = self.controller
+            ctl.comp_lock = HLock(self)
+            nodes = list(ctl.graph.nodes)
+            depth = {}
+
+            def _depth(r):
+                if r not in depth:
+                    depth[r] = 0   # guards against cycles (validated workflows have none)
+                    ps = list(ctl.graph.predecessors(r))
+                    depth[r] = 1 + max([_depth(p) for p in ps]) if ps else 0
+                return depth[r]
+            # canonical topological numbering: (longest path from a source, name)
+            for r in sorted(nodes, key=lambda r: (_depth(r), r)):
+                self._adopt(r)
+            self.order = [self.index[r] for r in nodes if r in self.index]      # iteration order of graph.nodes
+            self.preds = {r: sorted(self.index[p] for p in ctl.graph.predecessors(r) if p in self.index)
+                          for r in self.refs}
+            self._adopt_engines()
+            for r, s in (scripts_by_ref or {}).items():
+                self.scripts[r] = list(s)
+            self.pending = []          # [kind, ref]: queued notifications that are still to be delivered
+            self.launch_hook = None    # fn(ref) called at every engine.run()
+            self.trace = []            # (op, snapshot)
+            self.status = FakeStatus()
+            self.result = None
+            self.results = []          # what run() did for every stage that was run ("ok" | exception type name | "stopped")
+            self.stage_no = 0          # index of the stage that is current
+            self.n_sched = 0
+            self._chooser = None
+            self._delivered = None
+
+            def on_finish(comp, state):
+                try:
+                    r = comp.specification.reference
+                except Exception:  # noqa
+                    return
+                if self.comp.get(r) is comp:
+                    self.finish_log.append([r, STATE_NAMES.get(state, str(state))])
+                    self.first_final.setdefault(r, STATE_NAMES.get(state, str(state)))
+            self._on_finish = on_finish
+            env["FINISH_HOOKS"].append(on_finish)
+            ctl.initialise(self.exp._stages[0], self.status)
+
+            real_fin = ctl.finishedCheck
+            real_pm = ctl.postMortemCheck
+
+            def rec_finished(state, component):
+                self._delivered = ["fin", component.specification.reference]
+                return real_fin(state, component)
+
+            def rec_postmortem(state, component):
+                self._delivered = ["pm", component.specification.reference]
+                return real_pm(state, component)
+            ctl.finishedCheck = rec_finished
+            ctl.postMortemCheck = rec_postmortem
+            ctl._event_scheduler = _EventScheduler(self)
+            real_schedule = ctl._schedule
+
+            def schedule(*a, **k):
+                r = real_schedule(*a, **k)
+                self.n_sched += 1
+                self._settle()
+                self._record(["sched"])
+                self._notify(["sched"])
+                return r
+            ctl._schedule = schedule
+
+            def on_run(engine):
+                if engine in self.engines:
+                    r = engine.job.reference
+                    self._note_finals()
+                    self.clock += 1
+                    self.launch_at.setdefault(r, len(self.trace))
+                    self.launch_clock.setdefault(r, self.clock)
+                    if self.launch_hook is not None:
+                        self.launch_hook(r)
+            self._on_run = on_run
+            env["RUN_HOOKS"].append(on_run)
+            self._settle()
+        except BaseException:
+            self.close()
+            raise
+
+    # -- components (the set grows when a DoWhile iteration is instantiated) ---------------------
+    def _adopt(self, r):
+        try:
+            c = self.controller.get_compstate(r)
+        except Exception:  # noqa: a node without ComponentState
+            return False
+        self.index[r] = len(self.refs)
+        self.refs.append(r)
+        self.comp[r] = c
+        self.execs.setdefault(r, 0)
+        self.scripts.setdefault(r, [])
+        return True
+
+    def _adopt_engines(self):
+        env = self.env
+        new = env["ENGINES"][self._n_eng:]
+        del env["ENGINES"][self._n_eng:]
+        self.engines.extend(new)
+        own = env["interval_owner"]
+        mine = [s for (fn, s) in env["intervals"][self._n_int:]
+                if own.get(id(s), fn).endswith("ComponentState.__init__")]
+        self._interval_subjects = getattr(self, "_interval_subjects", []) + [s for _, s in env["intervals"][self._n_int:]]
+        for _, s in env["intervals"][self._n_int:]:
+            own.pop(id(s), None)
+        del env["intervals"][self._n_int:]
+        # ComponentState.__init__ creates exactly one interval per component, in construction order == order of
+        # engine creation
+        for e, s in zip(new, mine):
             self.ticks[e.job.reference] = s
-        del env["intervals"][n_int:]
-        del env["ENGINES"][n_eng:]
-        self.pending = []          # [kind, ref]
-        self.execs = {r: 0 for r in self.refs}
-        self.scripts = {r: list((scripts_by_ref or {}).get(r, [])) for r in self.refs}
-        self.launch_hook = None    # fn(ref) called at every engine.run()
-        self.trace = []            # (op, snapshot)
-        self.status = FakeStatus()
-        self.result = None
-        self.results = []          # what run() did for every stage that was run ("ok" | exception type name | "stopped")
-        self.stage_no = 0          # index of the stage that is current
-        self.n_sched = 0
-        self._chooser = None
-        ctl.initialise(self.exp._stages[0], self.status)
 
-        def q_finished(state, component):
-            self.pending.append(["fin", component.specification.reference])
-
-        def q_postmortem(state, component):
-            self.pending.append(["pm", component.specification.reference])
-
-        self._real_finished = ctl.finishedCheck
-        self._real_postmortem = ctl.postMortemCheck
-        ctl.finishedCheck = q_finished
-        ctl.postMortemCheck = q_postmortem
-        ctl._event_scheduler = _EventScheduler(self)
-        real_schedule = ctl._schedule
-
-        def schedule(*a, **k):
-            r = real_schedule(*a, **k)
-            self.n_sched += 1
-            self._record(["sched"])
-            self._notify(["sched"])
-            return r
-        ctl._schedule = schedule
-
-        def on_run(engine):
-            if engine in self.engines and self.launch_hook is not None:
-                self.launch_hook(engine.job.reference)
-        self._on_run = on_run
-        env["RUN_HOOKS"].append(on_run)
+    def refresh(self):
+        """adopt the components that the Controller instantiated since the last call (DoWhile iterations)"""
+        ctl = self.controller
+        new = [r for r in ctl.graph.nodes if r not in self.index]
+        added = [r for r in new if self._adopt(r)]
+        if added or len(self.env["ENGINES"]) > self._n_eng:
+            self._adopt_engines()
+        return added
 
     # -- observation ------------------------------------------------------------------------
     def engine(self, ref):
@@ -337,6 +747,25 @@ class Sim:
 
     def state_name(self, ref):
         return STATE_NAMES.get(self.comp[ref].state, "other:" + str(self.comp[ref].state))
+
+    def true_state(self, ref):
+        """state of the component with final states taken from the ground truth: the first final state the component
+        entered (the state named by the first finish() call once the component is final), whatever the controller
+        reports now"""
+        st = self.state_name(ref)
+        if ref in self.final_at or st in FINAL_NAMES:
+            return self.first_final.get(ref, st)
+        return st
+
+    def _note_finals(self):
+        self.clock += 1
+        for r in self.refs:
+            if r not in self.final_at:
+                st = self.state_name(r)
+                if st in FINAL_NAMES:
+                    self.final_at[r] = len(self.trace)
+                    self.final_clock[r] = self.clock
+                    self.first_final.setdefault(r, st)
 
     def snapshot(self):
         ctl = self.controller
@@ -346,16 +775,127 @@ class Sim:
             comps.append([self.state_name(r), r in ctl.comp_done, c in ctl.comp_staged_in, c.engine.runs,
                           bool(c.finishCalled)])
         pend = sorted([k, self.index[r]] for k, r in self.pending)
-        return {"comps": comps, "stop": bool(ctl.stop_executing), "pending": pend,
+        snap = {"comps": comps, "stop": bool(ctl.stop_executing), "pending": pend,
                 "stage": int(ctl.currentStage.index)}
+        if self.workers:
+            snap["inflight"] = sorted([self.index[r], w.stops] for r, w in self.workers.items())
+        return snap
 
     def _record(self, op):
+        self._note_finals()
         self.trace.append((op, self.snapshot()))
 
     def _notify(self, op):
         fn = getattr(self._chooser, "notify", None)
         if fn is not None:
             fn(self, op)
+
+    # -- the held pools -------------------------------------------------------------------------
+    def _tag_for(self, pool, action):
+        o = getattr(action, "__self__", None)
+        if pool is self.task_pool:
+            if o is not None and id(o) in self._obs_tag:
+                return self._obs_tag[id(o)][1]
+            tag = self._launching
+            if o is not None and tag is not None:
+                self._obs_tag[id(o)] = (o, tag)
+            return tag
+        return None
+
+    def _label(self, value):
+        """what a value queued in an observe_on(controllerPool) pipeline is: ("fin" | "pm", ref) or None"""
+        W = self.env["W"]
+        if isinstance(value, tuple) and len(value) == 2 and isinstance(value[1], W.ComponentState):
+            try:
+                r = value[1].specification.reference
+            except Exception:  # noqa
+                return None
+            if self.comp.get(r) is not value[1]:
+                return None
+            pm = isinstance(value[0], dict) and value[0].get("state") == self.env["codes"].POSTMORTEM_STATE
+            return ("pm" if pm else "fin", r)
+        return None
+
+    def _queue_of(self, item):
+        o = getattr(item.action, "__self__", None)
+        if isinstance(o, self._SO):
+            return o
+        return None
+
+    def _classify(self, work):
+        """(label | None, dead) of one queued closure of a ScheduledObserver; remembered from the first time it is seen"""
+        k = id(work)
+        got = self._seen.get(k)
+        if got is not None and got[0] is work:
+            return got[1], got[2]
+        cv = _closure_vars(work)
+        label = self._label(cv["value"]) if "value" in cv else None
+        dead = False
+        if label is not None and label[0] == "pm":
+            # a post-mortem notification emitted after finish() was called: nobody may act on it
+            dead = bool(self.comp[label[1]].finishCalled)
+        self._seen[k] = (work, label, dead)
+        return label, dead
+
+    def _scan(self):
+        """-> (heads: {(kind, ref): item}, pending [[kind, ref]], auto: items to run at once)"""
+        heads = {}
+        pending = []
+        auto = []
+        queues = []
+        for item in list(self.ctrl_pool.items):
+            q = self._queue_of(item)
+            if q is None or not q.queue:
+                auto.append(item)       # not a ScheduledObserver / the drain step that releases it
+                continue
+            queues.append((item, q))
+        # a pipeline whose head is being delivered by a worker has no scheduled item: what is queued behind the
+        # notification in flight is still pending (and not deliverable before the worker ends)
+        for w in self.workers.values():
+            if w.queue is not None and w.queue.queue:
+                queues.append((None, w.queue))
+        for item, q in queues:
+            for pos, work in enumerate(list(q.queue)):
+                label, dead = self._classify(work)
+                if pos == 0 and item is not None:
+                    if label is None or dead:
+                        auto.append(item)
+                    else:
+                        heads[label] = item
+                if label is not None and not dead:
+                    pending.append([label[0], label[1]])
+        return heads, pending, auto
+
+    def _run_item(self, item):
+        try:
+            item.run()
+        except StopSim:
+            raise
+        except Exception as exc:  # noqa: a real pool thread would log and drop it
+            self.pool_errors.append("%s: %s" % (type(exc).__name__, str(exc)[:300]))
+
+    def _settle(self):
+        """run everything in the Controller pool that is not a live notification of a component (engine state updates
+        for observers, completions, drain steps, post-mortem notifications of components already asked to finish),
+        then recompute `pending`"""
+        for _ in range(10000):
+            heads, pending, auto = self._scan()
+            if not auto:
+                break
+            self._run_item(auto[0])
+        else:
+            raise HarnessError("controller pool does not settle")
+        if self.task_pool.items and not self.real_engines:
+            for item in list(self.task_pool.items):
+                self._run_item(item)
+        self._heads = heads
+        live = set(id(w) for q in ([self._queue_of(i) for i in self.ctrl_pool.items] +
+                                   [x.queue for x in self.workers.values()]) if q is not None for w in q.queue)
+        for k in [k for k in self._seen if k not in live]:
+            del self._seen[k]
+        self.pending = pending
+        if self.controller is not None and len(self.controller.graph.nodes) != len(self.refs):
+            self.refresh()
 
     # -- enabled ops -------------------------------------------------------------------------
     def running(self):
@@ -364,31 +904,87 @@ class Sim:
 
     def enabled(self):
         ops = [["exit", i] for i in self.running()]
-        ops += [[k, self.index[r]] for k, r in self.pending]
+        ops += [[k, self.index[r]] for (k, r) in sorted(self._heads)]
+        for r, w in sorted(self.workers.items()):
+            ops.append([("finB", "finC")[min(w.stops, 2) - 1], self.index[r]])
         return ops
 
+    # -- real engines ---------------------------------------------------------------------------
+    def _script_entry(self, ref, k):
+        s = self.scripts.get(ref, [])
+        return s[k] if k < len(s) else "Success"
+
+    def _next_launch(self, eng):
+        """script entry that decides what the task generator does for the launch that is being made"""
+        r = eng.job.reference
+        return self._script_entry(r, self.execs.get(r, 0))
+
     # -- op execution ------------------------------------------------------------------------
+    def _deliver(self, kind, r, split):
+        item = self._heads.get((kind, r))
+        if item is None:
+            return False
+        self._delivered = None
+        if not split:
+            self._run_item(item)
+            if self._delivered is not None and self._delivered != [kind, r]:
+                raise HarnessError("queued notification %r was delivered as %r" % ((kind, r), self._delivered))
+        else:
+            def body():
+                self._run_item(item)
+            w = _Worker(self, body, (kind, r), 2)
+            w.queue = self._queue_of(item)
+            self.workers[r] = w
+            w.start()
+            self._after_worker(r, w)
+        return True
+
+    def _after_worker(self, r, w):
+        if w.done:
+            del self.workers[r]
+            if w.exc is not None and not isinstance(w.exc, StopSim):
+                self.pool_errors.append("%s: %s" % (type(w.exc).__name__, str(w.exc)[:300]))
+
     def apply(self, op):
         kind = op[0]
         ctl = self.controller
+        done = True
         if kind == "exit":
             r = self.refs[op[1]]
             e = self.engine(r)
             if e.started and e.isAlive():
                 k = self.execs[r]
-                reason = self.scripts[r][k] if k < len(self.scripts[r]) else "Success"
-                self.execs[r] = k + 1
-                e.die(reason)
+                entry = self._script_entry(r, k)
+                reason = entry.partition(":")[0]
+                if self.exit_hook is not None:
+                    self.exit_hook(r, reason)
+                if hasattr(e, "die"):
+                    self.execs[r] = k + 1
+                    e.die(reason)
+                else:
+                    mine = [it for it in self.task_pool.items if it.tag is e]
+                    if not mine:
+                        raise HarnessError("no held task of %s" % r)
+                    for _ in range(100):
+                        mine = [it for it in self.task_pool.items if it.tag is e]
+                        if not mine:
+                            break
+                        self._run_item(mine[0])
+                    self.execs[r] = k + 1
+            else:
+                done = False
         elif kind in ("fin", "pm"):
+            done = self._deliver(kind, self.refs[op[1]], False)
+        elif kind == "finA":
+            done = self._deliver("fin", self.refs[op[1]], True)
+        elif kind in ("finB", "finC"):
             r = self.refs[op[1]]
-            item = [kind, r]
-            if item in self.pending:
-                self.pending.remove(item)
-                c = self.comp[r]
-                if kind == "fin":
-                    self._real_finished(c.state, c)
-                elif not c.finishCalled:       # op.filter(lambda e: e[1].finishCalled is False)
-                    self._real_postmortem(c.state, c)
+            w = self.workers.get(r)
+            if w is None or w.stops != (1 if kind == "finB" else 2):
+                done = False
+            else:
+                w.resume()
+                self._after_worker(r, w)
         elif kind == "kill":
             ctl.killController("harness")
         elif kind == "tick":
@@ -397,7 +993,8 @@ class Sim:
                 s.on_next(0)
         else:
             raise ValueError("unknown op %r" % (op,))
-        self._record(op)
+        self._settle()
+        self._record(op if done else ["skip"] + list(op))
 
     def _in_wait(self):
         while True:
@@ -439,6 +1036,7 @@ class Sim:
             self.stage_no += 1
             self.exp.incrementStage()
             ctl.initialise(self.exp._stages[self.stage_no], self.status)
+            self._settle()
             self._record(["next"])
             self._notify(["next"])
             try:
@@ -447,6 +1045,7 @@ class Sim:
                 self.results.append("stopped")
                 break
         self.result = self.results[-1]
+        self._note_finals()
         return self.result
 
     def stage_states(self):
@@ -463,13 +1062,37 @@ class Sim:
         return [op for op, _ in self.trace]
 
     def close(self):
-        try:
-            self.env["RUN_HOOKS"].remove(self._on_run)
-        except ValueError:
-            pass
-        del self.env["intervals"][self._n_int:]
+        env = self.env
+        # let the suspended deliveries run to their end
+        self._draining = True
+        for r, w in list(getattr(self, "workers", {}).items()):
+            for _ in range(5):
+                if w.done:
+                    break
+                try:
+                    w.resume()
+                except HarnessError:
+                    break
+        self.workers = {}
+        for pool in (self.ctrl_pool, self.task_pool):
+            if pool.owner is self:
+                pool.owner = None
+            del pool.items[:]
+        if env["STATE"]["REAL"] is self:
+            env["STATE"]["REAL"] = None
+        for lst, cb in ((env["RUN_HOOKS"], getattr(self, "_on_run", None)),
+                        (env["FINISH_HOOKS"], getattr(self, "_on_finish", None))):
+            try:
+                lst.remove(cb)
+            except ValueError:
+                pass
+        subjects = list(getattr(self, "_interval_subjects", [])) + [s for _, s in env["intervals"][self._n_int:]]
+        for _, s in env["intervals"][self._n_int:]:
+            env["interval_owner"].pop(id(s), None)
+        del env["intervals"][self._n_int:]
+        del env["ENGINES"][self._n_eng:]
         # complete the subjects so that nothing keeps references alive
-        for s in self._interval_subjects:
+        for s in subjects:
             try:
                 s.on_completed()
             except Exception:
@@ -485,10 +1108,10 @@ class scripted:
     (or ["next"]) wait() returns, so that the loop performs its next iteration (or ends); if the stage does not
     end where the list says ["next"], the simulation is stopped.  At the end of the list the loop is given one
     more iteration when `finish` (so that a completed stage returns from run()), then the simulation is
-    stopped."""
+    stopped.  Entries ["skip", ...] (an op that was not enabled when it was recorded) are replayed as the op."""
 
     def __init__(self, ops, finish=True):
-        self.ops = [list(o) for o in ops]
+        self.ops = [list(o[1:]) if o and o[0] == "skip" else list(o) for o in ops]
         self.i = 0
         self.extra = bool(finish)
         self.asked_next = False
